@@ -22,9 +22,11 @@ def insertBy {α} (k : α → Nat) (x : α) : List α → List α
   | y :: ys => if k x ≤ k y then x :: y :: ys else y :: insertBy k x ys
 def sortBy {α} (k : α → Nat) (l : List α) : List α := l.foldl (fun acc x => insertBy k x acc) []
 
-/-- states that differ only in the order of the worker / Go-call lists are the same state -/
+/-- states that differ only in the order of the worker / Go-call lists are the same state; the ghosts `inflight` /
+    `late` (subjects of theorems, not observable) are dropped -/
 def norm (s : St) : St :=
-  { s with workers := sortBy wKey s.workers, goers := sortBy gKey s.goers, dropped := sortBy id s.dropped }
+  { s with workers := sortBy wKey s.workers, goers := sortBy gKey s.goers, dropped := sortBy id s.dropped,
+           inflight := [], late := [] }
 
 structure Park where
   inc  : List Nat := []     -- Go calls held by the harness right after their failed increment
@@ -47,7 +49,7 @@ def internalActs (g : Cfg) (pk : Park) (s : St) : List Act :=
     | .idle => Act.wTake i :: (if g.cap == 0 then senders.map (Act.wRdv i) else [])
     | .exiting => [Act.wExit i]
     | .running _ => []).flatten
-  goActs ++ wActs ++ [Act.dRecv, Act.dExit, Act.dFork, Act.dUndo]
+  goActs ++ wActs ++ [Act.dRecv, Act.dExit, Act.dDrain, Act.dFork, Act.dUndo]
 
 def succs (g : Cfg) (pk : Park) (s : St) : List St :=
   (internalActs g pk s).filterMap fun a => (step g s a).map norm
@@ -103,7 +105,7 @@ def conclude (d : DS) (after : List St) (obs : String) : IO DS := do
 def finishAct (s : St) (t : Nat) (p : Bool) : Option Act :=
   match s.workers.zipIdx.find? (fun (w, _) => w == .running t) with
   | some (_, i) => some (.wFinish i p)
-  | none => if s.disp == .running t then some (.dFinish p) else none
+  | none => if s.disp == .running t || s.disp == .drunning t then some (.dFinish p) else none
 
 partial def loop (h : IO.FS.Stream) (d : DS) : IO Unit := do
   let line ← h.getLine
